@@ -18,9 +18,10 @@
 #define IMG "/vmem/c17.img"
 #define BTAG 200
 
-enum { S_H, S_HSYNC, S_V, S_SD, S_GR, S_AN, S_HSPEC, S_VATTR, S_SDCHUNK, S_GRPAL, S_NSESS };
+enum { S_H, S_HSYNC, S_V, S_SD, S_GR, S_AN, S_HSPEC, S_VATTR, S_SDCHUNK, S_GRPAL, S_HNEWREF, S_NSESS };
 static const char *sessname[] = {"H-elements", "H-elements+midsync", "Vdata+Vgroup", "new-SDS", "new-GR-image", "annotations",
-                                 "H-linked+compressed-elements", "Vdata+Vgroup-with-attributes", "new-chunked+unlimited-SDS", "new-GR-image+palette+attribute"};
+                                 "H-linked+compressed-elements", "Vdata+Vgroup-with-attributes", "new-chunked+unlimited-SDS", "new-GR-image+palette+attribute",
+                                 "H-elements-under-Hnewref-numbers"};
 
 /* ------------------------------------------------------------ flush bookkeeping */
 #define MAXSEQ 512
@@ -48,11 +49,20 @@ build_base(int ndds, int nbase, int mixed)
     int32 fid = Hopen(PATH, DFACC_CREATE, (int16)ndds);
     if (fid == FAIL)
         return -1;
-    for (int i = 0; i < nbase; i++) {
+    for (int j = 0; j < nbase; j++) {
+        /* mixed == 3: the elements are created in descending order of their reference numbers */
+        int   i = mixed == 3 ? nbase - 1 - j : j;
         uint8 d[8];
         for (int k = 0; k < 6; k++)
             d[k] = (uint8)(0x40 + i * 8 + k);
         if (Hputelement(fid, BTAG, (uint16)(i + 1), d, 6) != 6)
+            return -1;
+    }
+    if (mixed == 3) {
+        /* ... and the highest reference number there is is in use (applications may choose their own), so that new numbers
+           have to be searched for */
+        uint8 d[4] = {1, 2, 3, 4};
+        if (Hputelement(fid, 322, 65535, d, 4) != 4)
             return -1;
     }
     if (mixed == 2) {
@@ -144,6 +154,15 @@ base_digest(const char *path, int nbase, int mixed, char *why, size_t nwhy)
             return 0;
         }
         h = mc_hash(h, d, 6);
+    }
+    if (mixed == 3) {
+        uint8 d[8] = {0};
+        if (Hlength(fid, 322, 65535) != 4 || Hgetelement(fid, 322, 65535, d) != 4) {
+            snprintf(why, nwhy, "element (322,65535) unreadable");
+            Hclose(fid);
+            return 0;
+        }
+        h = mc_hash(h, d, 4);
     }
     if (mixed == 1) {
         Vstart(fid);
@@ -262,6 +281,24 @@ run_session(int sess, int nnew)
                     if (Hsync(fid) == FAIL)
                         return -1;
                 }
+            }
+            API("Hclose", 1);
+            return Hclose(fid);
+        }
+        case S_HNEWREF: {
+            /* new elements of the tag the old ones have, under reference numbers the library hands out */
+            API("Hopen", 0);
+            int32 fid = Hopen(PATH, OPENMODE[g_mode], 0);
+            if (fid == FAIL)
+                return -1;
+            for (int i = 0; i < nnew; i++) {
+                API("Hnewref", 0);
+                uint16 r = Hnewref(fid);
+                if (r == 0)
+                    return -1;
+                API("Hputelement", 0);
+                if (Hputelement(fid, BTAG, r, d, 5) != 5)
+                    return -1;
             }
             API("Hclose", 1);
             return Hclose(fid);
@@ -570,7 +607,7 @@ run_case(long idx, void *ctx)
     (void)ctx;
     case_t *c      = &cases[idx];
     int     cfg[6] = {c->ndds, c->nbase, c->mixed, c->sess, c->nnew, c->mode};
-    mc_set_config(cfg, 6, "ndds=%d base=%d elements%s session=%s x%d open=%s", c->ndds, c->nbase, c->mixed == 1 ? "+Vdata/Vgroup/AN/GR/SDS" : c->mixed == 2 ? "+aliases so that a descriptor block ends the file" : "", sessname[c->sess],
+    mc_set_config(cfg, 6, "ndds=%d base=%d elements%s session=%s x%d open=%s", c->ndds, c->nbase, c->mixed == 1 ? "+Vdata/Vgroup/AN/GR/SDS" : c->mixed == 2 ? "+aliases so that a descriptor block ends the file" : c->mixed == 3 ? " created in descending order +ref 65535 in use" : "", sessname[c->sess],
                   c->nnew, openmode_name[c->mode]);
     mc_set_case("base(ndds=%d,n=%d,mixed=%d) + %s x%d, opened with %s", c->ndds, c->nbase, c->mixed, sessname[c->sess], c->nnew, openmode_name[c->mode]);
     g_mode = c->mode;
@@ -640,7 +677,7 @@ run_case(long idx, void *ctx)
     mc_count("sessions", 1);
     mc_count("log_writes", nlog);
     /* every prefix */
-    int  clause2  = c->sess == S_H || c->sess == S_HSYNC || c->sess == S_V || c->sess == S_HSPEC || c->sess == S_VATTR;
+    int  clause2  = c->sess == S_H || c->sess == S_HSYNC || c->sess == S_V || c->sess == S_HSPEC || c->sess == S_VATTR || c->sess == S_HNEWREF;
     long nprefix  = 0;
     vfs_copy(BASECOPY, IMG);
     vfile *img = vfs_lookup(IMG);
@@ -731,7 +768,7 @@ C17_main(const char *tier, const char *replay)
         int ndds = ndds_l[ni];
         int nb[6] = {1, ndds - 2, ndds - 1, ndds, 2 * ndds - 1, 2 * ndds + 1};
         for (int bi = 0; bi < 6; bi++)
-            for (int mixed = 0; mixed <= 2; mixed++)
+            for (int mixed = 0; mixed <= 3; mixed++)
                 for (int sess = 0; sess < S_NSESS; sess++) {
                     int nn[3] = {1, 3, ndds + 2};
                     for (int k = 0; k < 3; k++) {
@@ -741,7 +778,9 @@ C17_main(const char *tier, const char *replay)
                             continue;
                         if (!thorough && mixed == 1 && (bi == 0 || bi == 4))
                             continue;
-                        if (mixed == 2 && (sess == S_SD || sess == S_GR || sess == S_SDCHUNK || sess == S_GRPAL || bi == 5))
+                        if (mixed >= 2 && (sess == S_SD || sess == S_GR || sess == S_SDCHUNK || sess == S_GRPAL || bi == 5))
+                            continue;
+                        if (mixed == 3 && !(sess == S_H || sess == S_HNEWREF || sess == S_V))
                             continue;
                         /* SD sessions open through SDstart(DFACC_RDWR) only */
                         int nmodes = (sess == S_SD || sess == S_SDCHUNK) ? 1 : 3;
